@@ -111,6 +111,14 @@ func (w *hostileWorld) feed(proto string, input []byte, followValid bool) (state
 			return false
 		}
 	})
+	if !ended {
+		// a reader that is still busy (or blocked) after the input is exhausted: what it allocated in the
+		// meantime belongs to this input too (a hostile frame size may be buffered slowly)
+		runtime.ReadMemStats(&ms2)
+		if d := ms2.TotalAlloc - ms1.TotalAlloc; d > allocDelta {
+			allocDelta = d
+		}
+	}
 	_, in := a.Tapped()
 	replies = bytes.Count(in, []byte(`"tag"`))
 	switch {
